@@ -98,6 +98,28 @@ func p384Adapter() *adapter {
 		x, y := c.CombinedMult(q.(xy).x, q.(xy).y, be(m, 48), be(n, 48))
 		return xy{x, y}
 	}
+	ad.isIdentity = func(p pt) bool { return c.IsAtInfinity(p.(xy).x, p.(xy).y) }
+	ad.aliasOps = []aliasOp{
+		// the same big.Int objects as both operands
+		{"Add(x,y,x,y)", func(P, Q pt, k *big.Int) pt { p := P.(xy); x, y := c.Add(p.x, p.y, p.x, p.y); return xy{x, y} }, expDbl},
+		// results written over the operands
+		{"x,y=Add(x,y,…)", func(P, Q pt, k *big.Int) pt {
+			p, q := P.(xy), Q.(xy)
+			p.x, p.y = c.Add(p.x, p.y, q.x, q.y)
+			return p
+		}, expSum},
+		{"x,y=ScalarMult(x,y,k)", func(P, Q pt, k *big.Int) pt {
+			p := P.(xy)
+			p.x, p.y = c.ScalarMult(p.x, p.y, be(k, 48))
+			return p
+		}, expMul},
+		{"CombinedMult(Q,k,k-same-slice)", func(P, Q pt, k *big.Int) pt {
+			q := Q.(xy)
+			kb := be(k, 48)
+			x, y := c.CombinedMult(q.x, q.y, kb, kb)
+			return xy{x, y}
+		}, func(a, b, k *big.Int) *big.Int { e := new(big.Int).Mul(k, b); return e.Add(e, k) }},
+	}
 	ad.combinedKey = func(m, n, b *big.Int, got string) string {
 		if got == "O" && p384PartialCollision(m, n, b, ref.R) {
 			return "partial-results-equal"
@@ -230,6 +252,26 @@ func nistGroupAdapter(g group.Group, ref *curves.WCurve) *adapter {
 	ad.neg = func(p pt) pt { return g.NewElement().Neg(p.(group.Element)) }
 	ad.mul = func(k *big.Int, p pt) pt { return g.NewElement().Mul(p.(group.Element), sc(k)) }
 	ad.mulgen = func(k *big.Int) pt { return g.NewElement().MulGen(sc(k)) }
+	ad.isEqual = func(p, q pt) bool { return p.(group.Element).IsEqual(q.(group.Element)) }
+	ad.isIdentity = func(p pt) bool { return p.(group.Element).IsIdentity() }
+	ad.aliasOps = []aliasOp{
+		{"z.Add(z,y)", func(P, Q pt, k *big.Int) pt { z := P.(group.Element); return z.Add(z, Q.(group.Element)) }, expSum},
+		{"z.Add(x,z)", func(P, Q pt, k *big.Int) pt { z := Q.(group.Element); return z.Add(P.(group.Element), z) }, expSum},
+		{"z.Add(z,z)", func(P, Q pt, k *big.Int) pt { z := P.(group.Element); return z.Add(z, z) }, expDbl},
+		{"z.Dbl(z)", func(P, Q pt, k *big.Int) pt { z := P.(group.Element); return z.Dbl(z) }, expDbl},
+		{"z.Neg(z)", func(P, Q pt, k *big.Int) pt { z := P.(group.Element); return z.Neg(z) }, expNeg},
+		{"z.Mul(z,k)", func(P, Q pt, k *big.Int) pt { z := P.(group.Element); return z.Mul(z, sc(k)) }, expMul},
+		{"z.MulGen(k)-over-old-value", func(P, Q pt, k *big.Int) pt { return P.(group.Element).MulGen(sc(k)) }, func(a, b, k *big.Int) *big.Int { return k }},
+		{"z.Set(x).Add", func(P, Q pt, k *big.Int) pt {
+			z := g.NewElement().Set(P.(group.Element))
+			return z.Add(z, Q.(group.Element))
+		}, expSum},
+		{"x.Copy()", func(P, Q pt, k *big.Int) pt {
+			c := P.(group.Element).Copy()
+			P.(group.Element).Add(P.(group.Element), Q.(group.Element))
+			return c
+		}, func(a, b, k *big.Int) *big.Int { return a }},
+	}
 	return ad
 }
 
